@@ -1,5 +1,7 @@
 // Helpers shared by the decoder-side oracles: compare a decoded Packet with what the wire says.
 #pragma once
+#include <type_traits>
+#include <memory>
 #include <memory>
 #include <string>
 #include <vector>
@@ -85,6 +87,44 @@ inline std::string compareDelivery(const ASAM::CMP::Packet& p, const RefDelivery
         }
     }
     return "";
+}
+
+// The decoder of the pinned tree is copyable, and the monitors use that (a copy is a decoder with the same history). A change
+// that takes copyability away must not stop the harness from compiling - the copy-based monitors then simply do not run.
+template <typename D>
+inline std::unique_ptr<D> cloneDecoder(const D& d)
+{
+#ifndef VF_NO_DECODER_COPY
+    if constexpr (std::is_copy_constructible_v<D>)
+        return std::make_unique<D>(d);
+    else
+        return nullptr;
+#else
+    // (std::is_copy_constructible cannot see a non-copyable member of an unordered_map's mapped type: vf/build.py falls back to
+    // this macro when a driver does not compile otherwise)
+    (void) d;
+    return nullptr;
+#endif
+}
+template <typename D>
+inline bool continueOnCopy(D& d)
+{
+#ifdef VF_NO_DECODER_COPY
+    (void) d;
+    if constexpr (true)
+        return false;
+    else
+#endif
+    if constexpr (std::is_copy_constructible_v<D> && std::is_copy_assignable_v<D> && std::is_move_assignable_v<D>)
+    {
+        D copy(d);
+        D other;
+        other = copy;
+        d = std::move(other);
+        return true;
+    }
+    else
+        return false;
 }
 
 inline std::string describeFrames(const std::vector<wire::Bytes>& frames, size_t upTo, size_t capEach = 96)
